@@ -61,8 +61,10 @@ TOLERANCES = {
     'adjadj': '||matrix(A.adjoint.adjoint) - M||_F <= 64*eps*dim*||M||-bound',
     'complex_linear': '||N J_Y - J_X N||_F <= same tolerance, asserted only '
                       'when ||M J_X - J_Y M|| is within it',
-    'linearity': '|A(x) - M x| <= 64*eps*dim*(||M|| ||x||) on one vector, '
+    'linearity': '|A(x) - M x| <= 4*64*eps*dim*(||M|| ||x||) on one vector, '
                  'A(0) = 0 to the same tolerance',
+    'pair': '|Re<Ax,y> - Re<x,A*y>| <= 4*64*eps*dim*scale*||x||*||y|| for '
+            'one dense pair (cross-check of the matrix identity)',
     'dft_proportional': 'column-/row-wise fit N = M^T diag(w): residual <= '
                         '1e3*eps*(1+log2 n) relative, w > 0, and for the '
                         'plain DFT w == D_k / prod(n_axes) to the same '
@@ -71,8 +73,16 @@ TOLERANCES = {
 ASSUMPTIONS = [
     'spaces have real dimension <= ~40 (the identity is decided exactly '
     'there; size-dependent code paths of the adjoints are not reached)',
-    'operators whose .adjoint raises (or returns None) are counted as '
-    'adjoint_unavailable, not as violations (property is conditional)',
+    'operators whose .adjoint raises a documented refusal type '
+    '(NotImplementedError incl. OpNotImplementedError, TypeError, ValueError) '
+    'or returns None are counted as adjoint_unavailable, not as violations '
+    '(the property is conditional on an adjoint being returned). Two '
+    'exceptions: any other exception type is a crash (clause adjoint-raises), '
+    'and an arithmetic combination / block operator whose operands all offer '
+    'adjoints must offer one itself, except for complex scalars on operators '
+    'between a real and a complex space (conjugate outside the field)',
+    'once A returned an adjoint, A.adjoint.adjoint has to act like A; it may '
+    'only decline with a documented refusal type (counted as observation)',
     'between two complex spaces the full complex identity is asserted only '
     'for complex-linear A; R-linear A (e.g. embed o realpart) is compared in '
     'real part, like operators between a real and a complex space',
@@ -84,9 +94,14 @@ ASSUMPTIONS = [
     'vectors inside operators (multiplicands, derivative points) are '
     'half-integers from a seeded RandomState, seed 0 = all ones',
 ]
-RULE = ('Hypothesis draws a family (12 families weighted towards expression '
-        'trees), then a catalogue entry with its options and spaces, or a '
-        'typed expression tree of depth 1-3 over a small universe of spaces; '
+RULE = ('Hypothesis draws a family (13 families: default_ops, complex_ops, '
+        'matrix, sampling, pointwise, projection, diff_ops, resize, fourier, '
+        'wavelet, blocks, derivs, tree; weighted towards expression trees), '
+        'then a catalogue entry with its options and spaces, or a typed '
+        'expression tree of depth 1-3 (sum, composition, left/right scalar '
+        'and vector multiples, adjoint-of, power, block operators with zero '
+        'blocks) over a small universe of spaces; every operand of a '
+        'composite is checked before the composite (bottom-up); '
         'non-trivial = the oracle was evaluated and (some space is weighted, '
         'complex, product or has boundary nodes, or the tree has depth >= 2); '
         'distinct by sha1 of the descriptor')
@@ -97,6 +112,52 @@ FFT_CLASSES = ('DiscreteFourierTransform', 'DiscreteFourierTransformInverse',
 
 def strategy(tier):
     return zoo.cases()
+
+
+EXHAUSTIVE = {
+    'quick': ['finite-difference adjoint tables: PartialDerivative x 3 '
+              'methods x 10 pad modes (6 documented + their 4 adjoint modes) '
+              'x axis sizes 3..6 x {real, complex} in 1-D; Gradient and '
+              'Divergence x 3 methods x 10 pad modes on a (3, 4) grid; '
+              'Laplacian x 4 pad modes x sizes 3..6 and (3, 4); all on '
+              'discretizations without boundary nodes'],
+}
+EXHAUSTIVE['thorough'] = EXHAUSTIVE['quick']
+
+
+def enumerate_cases(tier):
+    def discr(shape, dtype):
+        return {'kind': 'discr', 'min': [0.0] * len(shape),
+                'max': [float(n) * 0.5 for n in shape], 'shape': list(shape),
+                'dtype': dtype, 'exponent': 2.0, 'nodes_on_bdry': False,
+                'weighting': None}
+    pads = zoo.DIFF_PADS + zoo.DIFF_PADS_ADJ
+    cases = []
+    for dtype in ('float64', 'complex128'):
+        for n in (3, 4, 5, 6):
+            sp = {'X': discr([n], dtype)}
+            for method in zoo.DIFF_METHODS:
+                for pad in pads:
+                    cases.append({'family': 'diff_ops', 'spaces': sp, 'op': {
+                        'e': 'partial', 'sp': 'X', 'ran': None, 'axis': 0,
+                        'method': method, 'pad_mode': pad}})
+            for pad in zoo.LAPL_PADS:
+                cases.append({'family': 'diff_ops', 'spaces': sp, 'op': {
+                    'e': 'laplacian', 'sp': 'X', 'ran': None,
+                    'pad_mode': pad}})
+    sp = {'X': discr([3, 4], 'float64')}
+    for method in zoo.DIFF_METHODS:
+        for pad in pads:
+            cases.append({'family': 'diff_ops', 'spaces': sp, 'op': {
+                'e': 'gradient', 'sp': 'X', 'ran': None, 'method': method,
+                'pad_mode': pad}})
+            cases.append({'family': 'diff_ops', 'spaces': sp, 'op': {
+                'e': 'divergence', 'sp': 'X', 'dom': None, 'method': method,
+                'pad_mode': pad}})
+    for pad in zoo.LAPL_PADS:
+        cases.append({'family': 'diff_ops', 'spaces': sp, 'op': {
+            'e': 'laplacian', 'sp': 'X', 'ran': None, 'pad_mode': pad}})
+    return cases
 
 
 # --------------------------------------------------------------------------
@@ -347,7 +408,10 @@ def check_operator(node, eng, bound_children):
     X, Y = A.domain, A.range
     n, m = flat.rdim(X), flat.rdim(Y)
     dim = max(n, m, 1)
-    eps = eps_of(X, Y)
+    # coarsest floating precision of the own spaces and of every operand
+    # (a float32 space in the middle of a composition limits the accuracy)
+    eps = max([eps_of(X, Y)] + [k.eps for k in node.children])
+    node.eps = eps
     fft = cls in FFT_CLASSES or 'Fourier' in cls
     ktol = K_TOL * eps * dim * ((1 + np.log2(max(dim, 2))) if fft else 1.0)
 
@@ -475,6 +539,20 @@ def check_operator(node, eng, bound_children):
             raise Violation('C05|gram-proportional|' + tail,
                             info + '; ' + detail)
         raise Violation('C05|gram|' + tail, detail)
+
+    # ---- one direct pair (the form in which the property is stated) -------
+    xv = np.cos(np.arange(1, n + 1) * 1.7) * 2.0
+    yv = np.sin(np.arange(1, m + 1) * 0.9 + 0.3) * 1.5
+    xe, ye = flat.unflat(xv, X), flat.unflat(yv, Y)
+    left = float(np.real(flat.sinner(Y, eng.apply(A, xe, Y, 'A', tail), ye)))
+    right = float(np.real(flat.sinner(
+        X, xe, eng.apply(adj, ye, X, 'A.adjoint', tail))))
+    pair_tol = 4 * ktol * max(scale * _fro(xv) * _fro(yv), 1e-300)
+    if not abs(left - right) <= pair_tol:
+        raise Violation('C05|pair|' + tail,
+                        'matrices satisfy the Gram identity but Re<Ax,y> = '
+                        '{!r} and Re<x,A*y> = {!r} for a dense pair (operator '
+                        'with state, or not linear?)'.format(left, right))
 
     # ---- complex linearity -----------------------------------------------
     if both_complex:
